@@ -109,6 +109,8 @@ fn metadata_ops(m: &PackageMetadata, panics: &mut Vec<Value>) -> u64 {
     op!(panics, n, "display_header", format!("{}", m.header));
     op!(panics, n, "display_signature_header", format!("{}", m.signature));
     op!(panics, n, "debug_metadata", format!("{:?}", m.lead));
+    op!(panics, n, "debug_header", format!("{:?}", m.header).len());
+    op!(panics, n, "debug_signature_header", format!("{:?}", m.signature).len());
     op!(panics, n, "metadata_write", {
         let mut v = Vec::new();
         m.write(&mut v)
